@@ -8,4 +8,5 @@ var RepoDir = "/repo"
 // All maps a property id to its engine constructor.
 var All = map[string]func() *corr.Engine{
 	"C02": C02,
+	"C17": C17,
 }
